@@ -94,6 +94,19 @@ func regMenu(seed int64) []regOp {
 		}
 		s.e[0] = e
 	})
+	add("r1:=SetBytes(Bytes(r0)) after an earlier decode of the same bytes whose result the caller then doubled in place", func(c *ipa.IPAConfig, s *regState) {
+		b := s.e[0].Bytes()
+		var t, u banderwagon.Element
+		if err := t.SetBytes(b[:]); err != nil {
+			panic(core.ImplFault{API: "decode(encode)", Input: "valid element(s) of the register machine", Got: "error: " + err.Error()})
+		}
+		t.Double(&t) // the caller's own variable: what it holds now is nobody else's business
+		if err := u.SetBytes(b[:]); err != nil {
+			panic(core.ImplFault{API: "decode(encode)", Input: "valid element(s) of the register machine", Got: "error: " + err.Error()})
+		}
+		s.e[1] = u
+		s.p[1] = s.p[0]
+	})
 	add("r1:=SetBytesUncompressed(BytesUncompressedTrusted(r1),trusted)", func(c *ipa.IPAConfig, s *regState) {
 		b := s.e[1].BytesUncompressedTrusted()
 		var e banderwagon.Element
@@ -224,6 +237,15 @@ func c07Invariant(roll *c07roll) regInv {
 				vio(r, "c07.decode", "banderwagon.Element.SetBytes", hist, "decoding "+reg+".Bytes() succeeds", err.Error())
 			} else if !d.Equal(&e) || !e.Equal(&d) {
 				vio(r, "c07.decode", "banderwagon.Element.SetBytes", hist, "SetBytes("+reg+".Bytes()) Equal "+reg, "not Equal")
+			} else {
+				// the decoded variable belongs to the caller: after the caller has changed it in place, decoding
+				// the same bytes again (into another variable) still gives the element
+				d.Double(&d)
+				d.Add(&d, &banderwagon.Generator)
+				var d2 banderwagon.Element
+				if err := d2.SetBytes(by[i][:]); err != nil || !d2.Equal(&e) || d2.Bytes() != by[i] {
+					vio(r, "c07.decode", "banderwagon.Element.SetBytes", hist, "SetBytes("+reg+".Bytes()) again, after the caller changed the first decoded variable in place, is Equal "+reg, fmt.Sprintf("err=%v, %s", err, elString(&d2)))
+				}
 			}
 			if !e.Equal(&e) {
 				vio(r, "c07.equal", "banderwagon.Element.Equal", hist, reg+" Equal itself", "false")
@@ -309,8 +331,77 @@ func regUnits(id string, mkInv func() regInv, depthQuick, depthThorough int) fun
 func init() {
 	core.Register(&core.Check{
 		ID: "C07", Level: "model_checking",
-		Rule:   "explicit-state breadth-first search over a two-register machine of group elements: 30 operations (Add/Sub/Double/Neg in aliased forms, ScalarMul by {0,2,3,r-1,lambda}, Normalize, BatchNormalize, AddMixed with (0,-1) (class flip), projective rescaling, constants, decode(encode), trusted uncompressed round trip, MultiScalar, MultiExp incl. all-zero scalars into an uninitialised receiver, table-based Commit), ALL sequences up to depth 3 (5 thorough) from (G, SRS[1]), states de-duplicated on the exact concrete limbs of both registers; in every distinct state: Bytes = reference class bytes (also via ElementsToBytes), Equal(r0,r1) <=> same reference class <=> equal bytes, symmetry/reflexivity/transitivity, decode(Bytes) Equal, never Equal to the all-zero value, and path independence against all previously seen states; non-trivial = states whose registers hold the same class in different representations",
+		Rule:   "explicit-state breadth-first search over a two-register machine of group elements: 31 operations (Add/Sub/Double/Neg in aliased forms, ScalarMul by {0,2,3,r-1,lambda}, Normalize, BatchNormalize, AddMixed with (0,-1) (class flip), projective rescaling, constants, decode(encode), trusted uncompressed round trip, MultiScalar, MultiExp incl. all-zero scalars into an uninitialised receiver, table-based Commit), ALL sequences up to depth 3 (5 thorough) from (G, SRS[1]), states de-duplicated on the exact concrete limbs of both registers; in every distinct state: Bytes = reference class bytes (also via ElementsToBytes), Equal(r0,r1) <=> same reference class <=> equal bytes, symmetry/reflexivity/transitivity, decode(Bytes) Equal, never Equal to the all-zero value, and path independence against all previously seen states; non-trivial = states whose registers hold the same class in different representations",
 		Assume: []string{"reference class = independent math/big group law applied along the same history", "state key = exact limbs (no abstraction); the bound is the depth"},
-		Units:  regUnits("C07", func() regInv { return c07Invariant(&c07roll{byBytes: map[[32]byte]ref.Pt{}}) }, 3, 5),
+		Units: func(ctx *core.Ctx) []core.Unit {
+			us := regUnits("C07", func() regInv { return c07Invariant(&c07roll{byBytes: map[[32]byte]ref.Pt{}}) }, 3, 5)(ctx)
+			return append(us, core.Unit{Name: "batch encodings of 255..4096 elements, and of batches containing a zero-valued entry, equal the single encodings", Run: c07Batches})
+		},
 	})
+}
+
+// c07Batches: ElementsToBytes / BatchToBytesUncompressed on large batches (where an implementation may
+// switch strategy) and on batches that contain one value which is not a group element: every valid entry
+// must be encoded exactly as by its own Bytes().
+func c07Batches(ctx *core.Ctx, r *core.Result) {
+	needRef()
+	c := conf()
+	for _, L := range []int{255, 256, 257, 300, 1024, 4096} {
+		store := make([]banderwagon.Element, L)
+		ptrs := make([]*banderwagon.Element, L)
+		for i := range store {
+			store[i] = reprOf(c.SRS[(i*7+L)%256], i%nRepr)
+			ptrs[i] = &store[i]
+		}
+		for round := 0; round < 3; round++ {
+			var cb [][32]byte
+			var ub [][64]byte
+			in := fmt.Sprintf("batch of %d elements (round %d)", L, round)
+			if !timed(r, "c07.panic", "banderwagon.ElementsToBytes / BatchToBytesUncompressed", in, func() {
+				cb = banderwagon.ElementsToBytes(ptrs...)
+				ub = banderwagon.BatchToBytesUncompressed(ptrs...)
+			}) {
+				break
+			}
+			r.Evals++
+			r.Nontrivial++
+			if len(cb) != L || len(ub) != L {
+				vio(r, "c07.batch", "banderwagon.ElementsToBytes", in, fmt.Sprint(L, " encodings"), fmt.Sprint(len(cb), " and ", len(ub)))
+				break
+			}
+			for i := range store {
+				want := ref.Compress(ref.SRS()[(i*7+L)%256])
+				if cb[i] != want || store[i].Bytes() != want {
+					vio(r, "c07.batch", "banderwagon.ElementsToBytes", in, fmt.Sprintf("[%d] = reference encoding %x", i, want), fmt.Sprintf("batch %x, single %x", cb[i], store[i].Bytes()))
+					break
+				}
+				if u := store[i].BytesUncompressedTrusted(); ub[i] != u {
+					vio(r, "c07.batch", "banderwagon.BatchToBytesUncompressed", in, fmt.Sprintf("[%d] = BytesUncompressedTrusted() = %x", i, u), fmt.Sprintf("%x", ub[i]))
+					break
+				}
+			}
+		}
+	}
+	// one entry that is not a group element (the zero value of the type), at every position of a batch of 4
+	for pos := 0; pos < 4; pos++ {
+		var zero banderwagon.Element
+		vals := []banderwagon.Element{reprOf(c.SRS[3], reprProj), c.SRS[4], reprOf(c.SRS[5], reprProjFlip), c.SRS[6]}
+		ptrs := make([]*banderwagon.Element, 4)
+		for i := range ptrs {
+			ptrs[i] = &vals[i]
+		}
+		ptrs[pos] = &zero
+		in := fmt.Sprintf("batch of 4 with a zero-valued Element at position %d", pos)
+		var cb [][32]byte
+		if !guard(r, "c07.panic", "banderwagon.ElementsToBytes", in, func() { cb = banderwagon.ElementsToBytes(ptrs...) }) || len(cb) != 4 {
+			continue
+		}
+		r.Evals++
+		r.Nontrivial++
+		for i := range ptrs {
+			if i != pos && cb[i] != vals[i].Bytes() {
+				vio(r, "c07.batch", "banderwagon.ElementsToBytes", in, fmt.Sprintf("[%d] = Bytes() = %x (the encoding of a valid entry does not depend on the other entries)", i, vals[i].Bytes()), fmt.Sprintf("%x", cb[i]))
+			}
+		}
+	}
 }
